@@ -28,6 +28,14 @@ CONSTANTS Ns,            \* request body lengths (bytes)
           AckStyles,     \* how the server acknowledges the Block1 requests that are not the last one, chosen per
                          \* transfer from "a" atomic (2.31, M=1), "s" stateless (2.04, M=0, every block enacted on
                          \* its own, RFC 7959 2.5), "as"/"sa" alternating (mixed), starting with the named one
+          XFaults,       \* further environment decisions, each costs the fault budget like a fault:
+                         \*   "e1" an error response (ErrCodes, with or without the Block1 option echoed, any size
+                         \*        exponent as hint, diagnostic payload) instead of the acknowledgement of a Block1 request,
+                         \*   "e2" an error response to a Block2 continuation request,
+                         \*   "etsome" the ETag of the unchanged representation appears / disappears between blocks,
+                         \*   "b2grow" / "b1grow" the server answers one size exponent above the request's,
+                         \*   ("etag" with a representation 2 that ends before the offset reached -> 4.00 is part of "etag")
+          ErrCodes, ErrLens,
           Combined,      \* TRUE: a fault and a loss may hit the same transfer; FALSE: at most one of the two
           FaultAt, NetAt \* {0}:  the fault / the loss may hit any exchange (exhaustive runs); otherwise the ordinal of
                          \* the request datagram it may hit is drawn at submission (spreads -simulate behaviours)
@@ -40,15 +48,18 @@ RepCid(rid) == IF rid = 1 THEN 161 ELSE 178
 RepEtag(rid) == 224 + rid
 Method == 2          \* POST; the reference server answers 2.04
 OkCode == 68
+ErrCid == 195
 
 E0 == [k |-> "", q |-> 0, code |-> 0, b1n |-> -1, b1m |-> -1, b1s |-> -1, b2n |-> -1, b2m |-> -1, b2s |-> -1,
        plen |-> 0, cid |-> -1, off |-> -1, cok |-> TRUE, size1 |-> -1, len |-> -1, etag |-> -1, rid |-> 0,
-       rt |-> FALSE, x |-> "", c |-> -1, rk |-> 0]
+       rt |-> FALSE, x |-> "", c |-> -1, rk |-> 0, tr |-> 1, pok |-> TRUE]
 
 NoR == [b1n |-> -1, b1m |-> -1, b1s |-> -1, b2n |-> -1, b2m |-> -1, b2s |-> -1, plen |-> 0, off |-> -1, size1 |-> -1]
 NoM == [code |-> 0, b1n |-> -1, b1m |-> -1, b1s |-> -1, b2n |-> -1, b2m |-> -1, b2s |-> -1, plen |-> 0, cid |-> -1,
         off |-> -1, etag |-> -1, rid |-> 0, x |-> ""]
-NoAct == [a |-> "", rp |-> FALSE, flt0 |-> "none", dbl |-> FALSE, st |-> "a", a1 |-> 0, a2 |-> 0, flt |-> "none", fate |-> "ok", M1 |-> 0, M2 |-> 0, sh |-> 0,
+ErrM(code, elen, x) == [NoM EXCEPT !.code = code, !.plen = elen, !.cid = IF elen > 0 THEN ErrCid ELSE -1,
+                                   !.off = IF elen > 0 THEN 0 ELSE -1, !.x = x]
+NoAct == [a |-> "", ec |-> 0, el |-> 0, echo |-> FALSE, rp |-> FALSE, flt0 |-> "none", dbl |-> FALSE, st |-> "a", a1 |-> 0, a2 |-> 0, flt |-> "none", fate |-> "ok", M1 |-> 0, M2 |-> 0, sh |-> 0,
           b1 |-> FALSE, sv |-> FALSE, nb1 |-> 0, nb2 |-> 0, nreq |-> 0, N |-> 0, C |-> 0]
 
 ReqEv(r, rt) == [E0 EXCEPT !.k = "req", !.q = 1, !.code = Method, !.b1n = r.b1n, !.b1m = r.b1m, !.b1s = r.b1s,
@@ -63,7 +74,7 @@ Step(es) == /\ emit' = es /\ obs' = ObsFold(obs, es)
 
 Init == /\ pc = "idle"
         /\ cl = [N |-> 0, C |-> 0, ph |-> "b1", szx |-> 0, cur |-> 0, req |-> NoR,
-                 alen |-> 0, aszx |-> 0, aetag |-> -1, acid |-> -1, aok |-> TRUE, acode |-> 0]
+                 alen |-> 0, aszx |-> 0, aetag |-> -1, acid |-> -1, aok |-> TRUE, apok |-> TRUE, acode |-> 0]
         /\ srv = [blen |-> -1, bok |-> TRUE, rid |-> 0, M |-> 0, nb1 |-> 0, nb2 |-> 0, style |-> "", pers |-> "none", psh |-> 0, et |-> -1]
         /\ msg = NoM /\ nreq = 0 /\ nb = NetBudget /\ fb = FaultBudget /\ arm = [f |-> 0, n |-> 0]
         /\ emit = << >> /\ obs = ObsInit /\ act = NoAct
@@ -89,9 +100,11 @@ Arm == /\ pc = "arm" /\ pc' = "send"
 (* ---- completion of the request ----------------------------------------------------- *)
 Finish(es) == /\ pc' = "fin" /\ Step(es) /\ UNCHANGED <<cl, srv, msg, nreq, nb, fb, arm>>
 Fail(cls) == Finish(<<[E0 EXCEPT !.k = "done", !.q = 1, !.x = cls]>>)
-Succeed(code, len, cid, ok) ==
+Succeed(code, len, cid, ok, pok) ==
   Finish(<<[E0 EXCEPT !.k = "done", !.q = 1, !.x = "resp", !.code = code, !.len = len, !.plen = len,
-                      !.cid = IF len > 0 THEN cid ELSE -1, !.cok = ok]>>)
+                      !.cid = IF len > 0 THEN cid ELSE -1, !.cok = ok, !.pok = pok]>>)
+\* a response passed on as it is
+Pass(m) == Succeed(m.code, m.plen, m.cid, m.plen = 0 \/ m.off = 0, m.plen = 0 \/ (m.off = 0 /\ m.cid # ErrCid))
 
 (* ---- the client sends its next request ---------------------------------------------- *)
 Thr(s) == IF s >= 6 THEN 1124 ELSE Size(s)       \* fragmentation threshold
@@ -137,17 +150,21 @@ DropReq ==
 \* (a request with a Block2 option and no Block1 is a continuation once a representation exists -- also when it
 \* asks for block 0 again; the modelled client never puts Block2 into its first request)
 IsFinal(r) == (r.b1n >= 0 /\ r.b1m = 0) \/ (r.b1n < 0 /\ r.b2n < 0)
-Serves(r, flt) == (IsFinal(r) /\ flt # "b1cont") \/ (r.b1n < 0 /\ r.b2n >= 0)
+Serves(r, flt) == ((IsFinal(r) /\ flt # "b1cont") \/ (r.b1n < 0 /\ r.b2n >= 0)) /\ flt # "e1"
 LenFaults == {"b2short", "b2empty", "b2over"}
 
 \* the Block2 part of a response: representation (rid, M) asked for with r, served at exponent a2
 Serve(m0, r, rid, et, M, a2, flt, sh) == \* et: ETag of the representation (-1: none)     \* sh: payload length of a block with a length fault
-  LET szx == IF r.b2n >= 0 THEN Min(a2, r.b2s) ELSE a2
+  LET szx == IF flt = "b2grow" THEN r.b2s + 1 ELSE IF flt = "b2big" THEN Min(6, r.b2s + sh)
+             ELSE IF r.b2n >= 0 THEN Min(a2, r.b2s) ELSE a2
       size == Size(szx)
-      off0 == IF r.b2n >= 0 THEN r.b2n * Size(r.b2s) ELSE 0
+      offr == IF r.b2n >= 0 THEN r.b2n * Size(r.b2s) ELSE 0
+      off0 == IF flt = "b2big" THEN (offr \div size) * size ELSE offr       \* "restart bigger": the larger block around it
       m1 == [m0 EXCEPT !.code = OkCode, !.etag = et, !.rid = rid]
   IN IF r.b2n < 0 /\ M <= size
        THEN [m1 EXCEPT !.plen = M, !.cid = IF M > 0 THEN RepCid(rid) ELSE -1, !.off = IF M > 0 THEN 0 ELSE -1]
+     ELSE IF off0 >= M /\ ~(off0 = 0 /\ M = 0)
+       THEN ErrM(128, 0, IF flt = "etag" THEN "shrunk" ELSE "beyond-end")      \* 4.00: nothing there to serve
      ELSE LET off == IF flt = "b2skip" THEN off0 + size ELSE IF flt = "b2prev" THEN off0 - size ELSE off0
               num == (off \div size) + (IF flt = "b2num" THEN 1 ELSE IF flt = "b2numlo" THEN -1 ELSE 0)
               more == off + size < M
@@ -171,28 +188,52 @@ Applicable(flt, r, M, a2) ==
        [] flt = "b2num"   -> Serves(r, flt) /\ blockwise
        [] flt \in {"b2skip", "b2short", "b2empty"} -> Serves(r, flt) /\ blockwise /\ more
        [] flt = "b2over"  -> Serves(r, flt) /\ blockwise /\ off0 + 2 * size < M
+       [] flt = "e1"      -> r.b1n >= 0
+       [] flt \in {"e2", "etsome"} -> r.b1n < 0 /\ r.b2n >= 0
+       [] flt = "b2grow"  -> r.b2n >= 0 /\ r.b1n < 0 /\ r.b2s < 6 /\ off0 % Size(r.b2s + 1) = 0 /\ off0 < M
+       [] flt = "b1grow"  -> r.b1n >= 0 /\ r.b1m = 1 /\ r.b1s < 6
+       [] flt = "b2big"   -> r.b2n >= 0 /\ r.b1n < 0 /\ r.b2s < 6 /\ off0 % Size(r.b2s + 1) # 0 /\ off0 < M
+       [] OTHER -> FALSE
+
+\* the part of Applicable that depends on the request alone (narrows the choice of a fault early)
+Pre(flt, r) ==
+  LET off0 == IF r.b2n >= 0 THEN r.b2n * Size(r.b2s) ELSE 0
+  IN CASE flt = "none"    -> TRUE
+       [] flt \in {"b1num", "e1"} -> r.b1n >= 0
+       [] flt = "b1numlo" -> r.b1n > 0
+       [] flt \in {"b1more", "b1cont"} -> r.b1n >= 0 /\ r.b1m = 0
+       [] flt \in {"etag", "e2", "etsome"} -> r.b1n < 0 /\ r.b2n >= 0
+       [] flt \in {"b2num", "b2numlo", "b2prev", "b2skip", "b2short", "b2empty", "b2over"} -> Serves(r, flt)
+       [] flt = "b2grow"  -> r.b2n >= 0 /\ r.b1n < 0 /\ r.b2s < 6
+       [] flt = "b1grow"  -> r.b1n >= 0 /\ r.b1m = 1 /\ r.b1s < 6
+       [] flt = "b2big"   -> r.b2n >= 0 /\ r.b1n < 0 /\ r.b2s < 6 /\ off0 % Size(r.b2s + 1) # 0
        [] OTHER -> FALSE
 
 Faults == {"b1num", "b1numlo", "b1more", "b1cont", "etag", "b2num", "b2numlo", "b2skip", "b2prev", "b2short", "b2empty",
-           "b2over"}
+           "b2over", "b2big"} \cup XFaults
 
 \* payload lengths of a block that contradicts its size: 1..size-1 / none / size+1 or two whole blocks
 LenChoices(flt, size) == CASE flt = "b2short" -> {1, size - 1}
                            [] flt = "b2empty" -> {0}
                            [] flt = "b2over"  -> {size + 1, 2 * size}
+                           [] flt = "b2big"   -> {1, 2}          \* (exponent steps)
                            [] OTHER           -> {0}
 
 ServerHandle ==
   /\ pc = "srv"
   /\ LET r == cl.req
          final == IsFinal(r)
-     IN \E flt0 \in (IF fb > 0 /\ FaultOk THEN Faults ELSE {}) \cup {"none"},
-           rp \in BOOLEAN,             \* a length fault: once / on every later block as well
-           fate \in {"ok"} \cup (IF nb > 0 /\ NetOk THEN {"dropresp", "dupresp"} ELSE {}),
+     IN \E flt0 \in (IF fb > 0 /\ FaultOk THEN {f \in Faults : Pre(f, r)} ELSE {}) \cup {"none"} :
+        \E rp \in (IF flt0 \in LenFaults THEN BOOLEAN ELSE {FALSE}),      \* a length fault: once / on every later block as well
+           fate \in {"ok"} \cup (IF nb > 0 /\ NetOk THEN (IF flt0 = "none" THEN {"dropresp", "dupresp"}
+                                                        ELSE IF Combined THEN {"dupresp"} ELSE {}) ELSE {}),
            a1 \in (IF r.b1n >= 0 THEN 0..r.b1s ELSE {0}),
            style \in (IF r.b1n >= 0 /\ r.b1m = 1 /\ srv.style = "" THEN AckStyles ELSE {srv.style}),
            M1 \in (IF final THEN (IF cl.N \in NsWide THEN Ms ELSE MsFew) ELSE {0}) :
-        \E M2 \in (IF flt0 = "etag" THEN {srv.M, srv.M + 20} ELSE {0}),
+        \E M2 \in (IF flt0 = "etag" THEN {srv.M, srv.M + 20} \cup (IF "shrink" \in XFaults THEN {5} ELSE {}) ELSE {0}),
+           ec \in (IF flt0 \in {"e1", "e2"} THEN ErrCodes ELSE {0}),           \* the error response: code,
+           el \in (IF flt0 \in {"e1", "e2"} THEN ErrLens ELSE {0}),            \* length of the diagnostic payload,
+           echo \in (IF flt0 = "e1" THEN BOOLEAN ELSE {FALSE}),                \* Block1 option (NUM / M=0 / a1) or none
            et1 \in (IF final /\ M1 \in MsNoEtag THEN BOOLEAN ELSE {TRUE}),     \* representation 1 / 2 with ETag?
            et2 \in (IF flt0 = "etag" THEN BOOLEAN ELSE {TRUE}),
            a2 \in (IF Serves(r, flt0) THEN (IF r.b2n >= 0 THEN 0..r.b2s ELSE 0..MaxSzx) ELSE {0}) :
@@ -202,7 +243,8 @@ ServerHandle ==
             flt == IF again THEN srv.pers ELSE flt0
             rid == IF final THEN 1 ELSE IF flt = "etag" THEN 2 ELSE srv.rid
             et == IF final THEN (IF et1 THEN RepEtag(1) ELSE -1)
-                  ELSE IF flt = "etag" THEN (IF et2 THEN RepEtag(2) ELSE -1) ELSE srv.et
+                  ELSE IF flt = "etag" THEN (IF et2 THEN RepEtag(2) ELSE -1)
+                  ELSE IF flt = "etsome" THEN (IF srv.et >= 0 THEN -1 ELSE RepEtag(srv.rid)) ELSE srv.et
             \* acknowledgement style of this (not last) Block1 request
             st == CASE style = "as" -> (IF srv.nb1 % 2 = 0 THEN "a" ELSE "s")
                     [] style = "sa" -> (IF srv.nb1 % 2 = 0 THEN "s" ELSE "a")
@@ -226,14 +268,18 @@ ServerHandle ==
                ack == IF r.b1n >= 0
                         THEN [NoM EXCEPT !.b1n = r.b1n + (IF flt = "b1num" THEN 1 ELSE IF flt = "b1numlo" THEN -1 ELSE 0),
                                          !.b1m = IF (r.b1m = 1 /\ st = "a") \/ flt = "b1more" THEN 1 ELSE 0,
-                                         !.b1s = a1, !.x = IF flt = "none" THEN "" ELSE flt]
+                                         !.b1s = IF flt = "b1grow" THEN r.b1s + 1 ELSE a1,
+                                         !.x = IF flt = "none" THEN "" ELSE flt]
                         ELSE [NoM EXCEPT !.x = IF flt = "none" THEN "" ELSE flt]
-               m == IF r.b1n >= 0 /\ r.b1m = 1 /\ st = "s" THEN [ack EXCEPT !.code = OkCode]
+               m == IF flt = "e1" THEN (IF echo THEN [ErrM(ec, el, "e1") EXCEPT !.b1n = r.b1n, !.b1m = 0, !.b1s = a1]
+                                        ELSE ErrM(ec, el, "e1"))
+                    ELSE IF flt = "e2" THEN ErrM(ec, el, "e2")
+                    ELSE IF r.b1n >= 0 /\ r.b1m = 1 /\ st = "s" THEN [ack EXCEPT !.code = OkCode]
                     ELSE IF r.b1n >= 0 /\ (r.b1m = 1 \/ flt = "b1cont") THEN [ack EXCEPT !.code = 95]
                     ELSE Serve(ack, r, rid, et, M, a2, flt, sh)
-               asm == IF final THEN <<[E0 EXCEPT !.k = "asm", !.len = blen1, !.cid = IF blen1 > 0 THEN ReqCid ELSE -1,
+               asm == IF final /\ flt # "e1" THEN <<[E0 EXCEPT !.k = "asm", !.len = blen1, !.cid = IF blen1 > 0 THEN ReqCid ELSE -1,
                                                   !.cok = bok1]>> ELSE << >>
-               rep == IF final \/ flt = "etag"
+               rep == IF (final /\ flt # "e1") \/ flt = "etag"
                         THEN <<[E0 EXCEPT !.k = "rep", !.rid = rid, !.len = M, !.cid = RepCid(rid), !.etag = et]>>
                         ELSE << >>
                out == CASE fate = "ok"       -> <<RespEv("resp", m, FALSE)>>
@@ -252,7 +298,7 @@ ServerHandle ==
                          psh  |-> IF ~rp THEN srv.psh ELSE IF flt0 = "b2over" THEN (IF sh = 2 * Size(szx2) THEN 0 ELSE 1) ELSE sh]
               /\ msg' = m
               /\ Step(asm \o (IF final /\ flt = "b1cont" THEN << >> ELSE rep) \o out)
-              /\ act' = [NoAct EXCEPT !.a = "srv", !.st = st, !.a1 = a1, !.a2 = a2, !.flt = flt, !.fate = fate, !.M1 = M1, !.M2 = M2,
+              /\ act' = [NoAct EXCEPT !.a = "srv", !.ec = ec, !.el = el, !.echo = echo, !.st = st, !.a1 = a1, !.a2 = a2, !.flt = flt, !.fate = fate, !.M1 = M1, !.M2 = M2,
                                       !.sh = sh, !.rp = rp, !.flt0 = flt0, !.dbl = (flt = "b2over" /\ sh = 2 * Size(szx2)), !.b1 = (r.b1n >= 0), !.sv = Serves(r, flt), !.nb1 = srv.nb1,
                                       !.nb2 = srv.nb2, !.nreq = nreq]
         /\ fb' = IF flt0 = "none" THEN fb ELSE fb - 1
@@ -265,10 +311,10 @@ ServerHandle ==
 \* _complete_by_requesting_block2 entered with the response to the complete request
 Complete(m) ==
   IF m.b2n < 0 \/ (m.b2m = 0 /\ ~(FixFirstNum /\ m.b2n # 0))
-    THEN Succeed(m.code, m.plen, m.cid, m.plen = 0 \/ m.off = 0)
+    THEN Pass(m)
   ELSE IF m.b2n # 0 THEN Fail("UnexpectedBlock2")
   ELSE /\ cl' = [cl EXCEPT !.ph = "b2", !.alen = m.plen, !.aszx = m.b2s, !.aetag = m.etag, !.acid = m.cid,
-                           !.aok = (m.plen = 0 \/ m.off = 0), !.acode = m.code]
+                           !.aok = (m.plen = 0 \/ m.off = 0), !.apok = (m.plen = 0 \/ m.off = 0), !.acode = m.code]
        /\ pc' = "send" /\ emit' = << >> /\ UNCHANGED <<srv, msg, nreq, nb, fb, arm, obs>>
 
 ClientRecv ==
@@ -291,15 +337,16 @@ ClientRecv ==
                     ELSE IF m.code \notin 64..95 THEN Complete(m)
                     ELSE Continue
      ELSE \* Block2 continuation: Message._append_response_block
-          IF m.b2n < 0 THEN Succeed(m.code, m.plen, m.cid, m.plen = 0 \/ m.off = 0)
+          IF m.b2n < 0 THEN Pass(m)
           ELSE IF ~(IF m.b2m = 1 THEN m.plen = Size(m.b2s) ELSE m.plen <= Size(m.b2s)) THEN Fail("UnexpectedBlock2")
           ELSE IF m.b2n * Size(m.b2s) # cl.alen THEN Fail("NotImplemented")
           ELSE IF m.etag # cl.aetag THEN Fail("ResourceChanged")
           ELSE LET alen2 == cl.alen + m.plen
                    acid2 == IF cl.alen = 0 THEN m.cid ELSE cl.acid
                    aok2 == cl.aok /\ (m.plen = 0 \/ (m.off = cl.alen /\ m.cid = acid2))
-               IN IF m.b2m = 0 THEN Succeed(cl.acode, alen2, acid2, aok2)
-                  ELSE /\ cl' = [cl EXCEPT !.alen = alen2, !.aszx = m.b2s, !.aok = aok2, !.acid = acid2]
+                   apok2 == cl.apok /\ (m.plen = 0 \/ m.off = cl.alen)
+               IN IF m.b2m = 0 THEN Succeed(cl.acode, alen2, acid2, aok2, apok2)
+                  ELSE /\ cl' = [cl EXCEPT !.alen = alen2, !.aszx = m.b2s, !.aok = aok2, !.apok = apok2, !.acid = acid2]
                        /\ pc' = "send" /\ emit' = << >> /\ UNCHANGED <<srv, msg, nreq, nb, fb, arm, obs>>
 
 End == /\ pc = "fin" /\ pc' = "end"
